@@ -480,8 +480,9 @@ def run_check(prop, tier, seed=0, only=None, nproc=None, serial=False, verbose=T
     wall = time.time() - t_start
     ev = build_evidence(mod, prop, tier, seed, per_config, violations, known_hits, harness_errors, wall,
                         all_notes, all_labels)
-    os.makedirs(os.path.join(VERIF, 'evidence'), exist_ok=True)
-    with open(os.path.join(VERIF, 'evidence', '%s.json' % prop), 'w') as f:
+    evdir = os.environ.get('VERIF_EVIDENCE_DIR') or os.path.join(VERIF, 'evidence')
+    os.makedirs(evdir, exist_ok=True)
+    with open(os.path.join(evdir, '%s.json' % prop), 'w') as f:
         json.dump(ev, f, indent=1, sort_keys=True)
 
     # ---- verdict lines
@@ -511,7 +512,7 @@ def run_check(prop, tier, seed=0, only=None, nproc=None, serial=False, verbose=T
 
 
 def write_replay(prop, config, r):
-    d = os.path.join(VERIF, 'replays', prop)
+    d = os.path.join(os.environ.get('VERIF_REPLAY_DIR') or os.path.join(VERIF, 'replays'), prop)
     os.makedirs(d, exist_ok=True)
     body = {'property': prop, 'config': config, 'clause': r['label'], 'detail': r.get('detail'),
             'params': _jsonable(r['params']), 'values': r['values'], 'choices': r['choices'],
